@@ -2,6 +2,7 @@ package main
 
 import (
 	"go/ast"
+	"go/constant"
 	"go/token"
 	"go/types"
 	"sort"
@@ -21,7 +22,11 @@ import (
 // return. Assignments whose right-hand side is not a call (err = nil, err = otherErr) are not definitions of
 // interest. errLookedAtExceptions lists the sites of today's tree where an error is deliberately not looked at.
 var errLookedAtExceptions = map[string]string{
-	"pass_table.AuthPlain:Lookup1": "the `ok` result is tested before the error: a failed table lookup is answered as 'unknown credentials'; authentication is refused on both paths, so C14 is not affected (the reply class for a broken table is outside the listed properties)",
+	"E2 lexer.next:ReadRune1":              "end of input ends the last token: the lexer reports the token it has (true) and the next call reports the end",
+	"E2 auth.AuthPlain:AuthPlain1":         "a provider's refusal is superseded by the next provider's answer; the last one is what the final return reports (success comes only from a nil answer: C14.R3b)",
+	"E2 smtp.releaseLimits:Split1":         "cannot fail: the very same string was split successfully when the permit was taken (C03.R5 / C03.immut)",
+	"E2 msgpipeline.srcBlockForAddr:Split1": "the empty reverse-path is not an address: the error is deliberately ignored for it (comment at the site) and the lookup goes on with empty parts",
+	"E1 pass_table.AuthPlain:Lookup1": "the `ok` result is tested before the error: a failed table lookup is answered as 'unknown credentials'; authentication is refused on both paths, so C14 is not affected (the reply class for a broken table is outside the listed properties)",
 }
 
 // errLookedAt examines one function (and, separately, each function literal in it) and returns the obligations
@@ -155,6 +160,108 @@ func errLookedAt(p *Prog, fi *FuncInfo) map[string]string {
 					msg = "the error of " + callee + " can be lost without having been looked at (overwritten or the function returns): " + f.Describe(path)
 				}
 				out[key] = msg
+				if named[o] {
+					continue
+				}
+				// E2: when the step DID fail, the error itself is used (returned, wrapped, logged, stored) or the function
+				// refuses, before the value is lost - a test with the wrong polarity sends the failure down the success path
+				realRead := func(q Pt) bool { return q.Node() != nil && readsObjReal(info, q.Node(), o) }
+				refuses := func(q Pt) bool {
+					k, ret := f.Exit(q)
+					if k == NotExit {
+						return false
+					}
+					if !f.IsNormalExit(q) {
+						return true // panic / os.Exit
+					}
+					if ret == nil || len(ret.Results) == 0 {
+						return false
+					}
+					last := ast.Unparen(ret.Results[len(ret.Results)-1])
+					// going on as a success: `return nil`, `return …, nil`, `return true`; everything else (an error
+					// literal or constructor, another error variable, false, a verdict object) refuses or reports
+					if isNilIdent(info, last) {
+						return false
+					}
+					if tv, ok := info.Types[last]; ok && tv.Value != nil && tv.Value.Kind() == constant.Bool && constant.BoolVal(tv.Value) {
+						return false
+					}
+					return true
+				}
+				// a range loop whose body uses the error (reporting it per recipient) counts as using it: the loop is
+				// over the recipients / connections the step was made for
+				loopReads := func(q Pt) bool {
+					if q.B.Kind != kindRangeLoop || q.I != 0 {
+						return false
+					}
+					rs, ok := q.B.Stmt.(*ast.RangeStmt)
+					if !ok {
+						return false
+					}
+					return readsObjReal(info, rs.Body, o)
+				}
+				realRead = orPt(realRead, loopReads)
+				lost2 := func(q Pt) bool {
+					if n := q.Node(); n != nil && assignsObj(info, n, o) {
+						return true
+					}
+					return f.IsNormalExit(q)
+				}
+				msg2 := ""
+				if path, found := f.ReachRefined2(dp, o, false, false, lost2, orPt(realRead, refuses), nil); found {
+					msg2 = "when " + callee + " fails, the function goes on as if it had succeeded (the error is neither used nor is anything refused before it is lost): " + f.Describe(path)
+				}
+				out["E2|"+key] = msg2
+				// E3: a value known to be nil is not reported as the failure
+				asArg := func(q Pt) bool {
+					n := q.Node()
+					if n == nil {
+						return false
+					}
+					hit := false
+					inspectNoLit(n, func(x ast.Node) bool {
+						// `err != nil && f(err)` / `err == nil || f(err)`: the right operand only runs for a non-nil error
+						if be, ok := x.(*ast.BinaryExpr); ok && (be.Op == token.LAND || be.Op == token.LOR) {
+							if ns, isTest := nilTest(info, be.X, o); isTest && ((be.Op == token.LAND && ns == 1) || (be.Op == token.LOR && ns == 0)) {
+								return false
+							}
+						}
+						if call, ok := x.(*ast.CallExpr); ok {
+							for _, a := range call.Args {
+								if objOf(info, a) == o {
+									hit = true
+								}
+							}
+						}
+						return true
+					})
+					return hit
+				}
+				redef := func(q Pt) bool { return q.Node() != nil && assignsObj(info, q.Node(), o) }
+				msg3 := ""
+				// only after a branch that asserts the value is nil (an unconditional `report(rcpt, err)` hands on the
+				// outcome, whatever it is)
+				var starts []Pt
+				for _, b := range f.G.Blocks {
+					cond, isCase := f.Cond(b)
+					if cond == nil || isCase || !b.Live {
+						continue
+					}
+					for si := 0; si < 2 && si < len(b.Succs); si++ {
+						for _, fact := range atomsOnEdge(cond, si) {
+							if ns, ok := nilTest(info, fact.E, o); ok && ((ns == 0) == fact.T) {
+								b := b
+								if _, reach := f.ReachRefined2(dp, o, true, false, func(q Pt) bool { return q.B == b }, redef, nil); reach {
+									starts = append(starts, Pt{b.Succs[si], 0})
+								}
+							}
+						}
+					}
+				}
+				if path, found := f.Reach(Query{From: starts, Inclusive: true, Target: asArg, Avoid: redef}); found && len(starts) > 0 {
+					msg3 = "the error of " + callee + " is handed on (wrapped / reported) on the path where it is nil - the failure branch is taken when the step succeeded: " + f.Describe(path)
+				}
+				out["E3|"+key] = msg3
 			}
 		}
 	}
@@ -201,13 +308,18 @@ func errDiscipline(c *Check, rule string, fis []*FuncInfo) int {
 		}
 		sort.Strings(keys)
 		for _, k := range keys {
-			n++
-			full := fi.Pkg.Types.Name() + "." + k
-			if why, ok := errLookedAtExceptions[full]; ok {
-				c.Except(rule + " " + full + ": " + why)
+			rl, kk := rule, k
+			if strings.HasPrefix(k, "E2|") || strings.HasPrefix(k, "E3|") {
+				rl, kk = k[:2], k[3:]
+			} else {
+				n++
+			}
+			full := fi.Pkg.Types.Name() + "." + kk
+			if why, ok := errLookedAtExceptions[rl+" "+full]; ok {
+				c.Except(rl + " " + full + ": " + why)
 				continue
 			}
-			c.Hold(rule, full, fi.Decl.Pos(), obs[k] == "", obs[k])
+			c.Hold(rl, full, fi.Decl.Pos(), obs[k] == "", obs[k])
 		}
 	}
 	return n
@@ -246,9 +358,49 @@ func errDisciplineSeen(c *Check) {
 		}
 	})
 	sort.Slice(fis, func(i, j int) bool { return fis[i].Name() < fis[j].Name() })
+	c.Rule("E2", "when a step failed (its error is non-nil) the error itself is used - returned, wrapped, logged, stored - or the function refuses, before the value is lost: an error test with the wrong polarity sends the failure down the success path", 0)
+	c.Rule("E3", "an error known to be nil is not handed on as the failure (the failure branch is not taken when the step succeeded)", 0)
 	c.Rule("E1", "in every function this property's rules looked at, the error result of a step (a call) is read - tested, returned, passed on or stored - on every path before it is overwritten or the function returns: no failed step is silently treated as done", e1Floor[c.ID])
 	errDiscipline(c, "E1", fis)
 }
 
-// e1Floor: number of error-producing steps seen in each property's functions on the reference tree, minus a margin.
-var e1Floor = map[string]int{"C01": 30, "C02": 23, "C03": 42, "C04": 32, "C05": 21, "C06": 37, "C07": 4, "C09": 19, "C10": 29, "C11": 52, "C12": 1, "C13": 5, "C14": 18, "C15": 8, "C17": 7, "C18": 14, "C20": 16}
+// e1Floor: number of error-producing steps seen in each property's functions on the reference tree, halved (behaviour-preserving restructuring moves steps between functions; the floor only guards against a vacuous pass).
+var e1Floor = map[string]int{"C01": 19, "C02": 14, "C03": 26, "C04": 20, "C05": 13, "C06": 23, "C07": 2, "C09": 12, "C10": 18, "C11": 33, "C12": 1, "C13": 3, "C14": 11, "C15": 5, "C17": 4, "C18": 9, "C20": 10}
+
+
+// readsObjReal: node n uses variable o other than as an assignment target and other than in a comparison with nil.
+func readsObjReal(info *types.Info, n ast.Node, o types.Object) bool {
+	found := false
+	skip := map[*ast.Ident]bool{}
+	inspectNoLit(n, func(x ast.Node) bool {
+		switch s := x.(type) {
+		case *ast.AssignStmt:
+			if s.Tok == token.ASSIGN || s.Tok == token.DEFINE {
+				for _, l := range s.Lhs {
+					if id, ok := ast.Unparen(l).(*ast.Ident); ok {
+						skip[id] = true
+					}
+				}
+			}
+		case *ast.BinaryExpr:
+			if s.Op == token.EQL || s.Op == token.NEQ {
+				if isNilIdent(info, s.Y) {
+					if id, ok := ast.Unparen(s.X).(*ast.Ident); ok {
+						skip[id] = true
+					}
+				}
+				if isNilIdent(info, s.X) {
+					if id, ok := ast.Unparen(s.Y).(*ast.Ident); ok {
+						skip[id] = true
+					}
+				}
+			}
+		case *ast.Ident:
+			if !skip[s] && info.Uses[s] == o {
+				found = true
+			}
+		}
+		return true
+	})
+	return found
+}
